@@ -258,7 +258,7 @@ def render_error_items():
     """A render_error function - on a Route or on the application's error handler - is a function outside the
     render phase: one that requires `context` must be rejected where it is installed."""
     out = []
-    for where in ('route', 'handler', 'handler-late'):
+    for where in ('route', 'handler', 'handler-late', 'tuple4', 'add-tuple4', 'route-kw-late'):
         for role in ('req', 'def', 'kwreq', 'none'):
             out.append(('render_error-context-%s:%s' % (role, where), {'where': where, 'role': role}, 'RE'))
     return out
@@ -291,6 +291,14 @@ def check_render_error(acc, label, spec):
     try:
         if spec['where'] == 'route':
             app = Application([Route('/x', ep, render_error=fn)])
+        elif spec['where'] == 'tuple4':
+            app = Application([('/x', ep, None, fn)])
+        elif spec['where'] == 'add-tuple4':
+            app = Application([('/y', ep)])
+            app.add(('/x', ep, None, fn))
+        elif spec['where'] == 'route-kw-late':
+            app = Application([('/y', ep)])
+            app.add(Route('/x', ep, render_error=fn))
         elif spec['where'] == 'handler':
             app = Application([('/x', ep)], error_handler=EH())
         else:
@@ -307,6 +315,9 @@ def check_render_error(acc, label, spec):
         acc.add('nontrivial')
         if built is None:
             acc.violation('C04:accepted:%s' % label, 'a render_error function requiring `context` was accepted', case)
+        elif not isinstance(built, NameError):
+            acc.violation('C04:wrong-exception:%s:%s' % (label, type(built).__name__), 'a render_error function requiring '
+                          '`context` is refused with %r, not with the NameError every other misplacement gets' % (built,), case)
     elif spec['role'] == 'def' and built is not None:
         pass    # a defaulted `context` is not required; clastic refuses the mention anyway, which the statement allows
     else:
